@@ -30,6 +30,7 @@ def plan(tier, seed):
     specs = [{"kind": "api", "pool": 130 if tier == "quick" else 220} for _ in range(n)]
     specs += [{"kind": "containers", "n": 250 if tier == "quick" else 2500} for _ in range(n // 2)]
     specs += [{"kind": "programs", "n": 1200 if tier == "quick" else 12000} for _ in range(n // 2)]
+    specs += [{"kind": "mutseq", "n": 600 if tier == "quick" else 6000} for _ in range(2 if tier == "quick" else 8)]
     return specs
 
 
@@ -325,8 +326,50 @@ def run_programs(spec, ctx):
         ctx.sample_maybe({"a": sa, "b": sb, "reference_equal": want}, 0.01)
 
 
+def run_mutation_sequences(spec, ctx):
+    """equal values must stay interchangeable as set elements and map keys after a nested part of one of them was
+    mutated *after* the value had already been hashed (stale cached hashes, stale sorted views)"""
+    import ckl.functions
+    r = ctx.rng
+    it, out = core.new_interpreter(secure=True, legacy=True)
+    for _ in range(spec["n"]):
+        ik = r.choice(["list", "list", "set", "map"])
+        a, b, c = r.sample(range(1, 9), 3)
+        if ik == "list":
+            inner0, mut, inner1 = "[%d]" % a, r.choice(["append(inner, %d)" % b, "inner !> append(%d)" % b, "insert_at(inner, 1, %d)" % b]), "[%d, %d]" % (a, b)
+            if r.random() < 0.3:
+                mut, inner1 = "inner[0] = %d" % b, "[%d]" % b
+        elif ik == "set":
+            inner0, mut, inner1 = "<<%d>>" % a, "append(inner, %d)" % b, "<<%d, %d>>" % (a, b)
+            if r.random() < 0.3:
+                inner0, mut, inner1 = "<<%d, %d>>" % (a, b), "remove(inner, %d); append(inner, %d)" % (a, c), "<<%d, %d>>" % (b, c)
+        else:
+            inner0, mut, inner1 = "<<<%d => 1>>>" % a, r.choice(["inner[%d] = 2" % b, "put(inner, %d, 2)" % b]), "<<<%d => 1, %d => 2>>>" % (a, b)
+        ok_ = r.choice(["[inner]", "[0, inner]", "[[inner]]", "<<< 'k' => inner >>>"])
+        outer0 = ok_
+        outer1 = ok_.replace("inner", inner1)
+        touch = r.choice(["outer in << [[9]] >>", "<<< identity(outer) => 1 >>>", "set([outer])", "length(<< outer, 1 >>)", "string(outer)", "outer == 1"])
+        src = ("def inner = %s; def outer = %s; %s; %s; def fresh = %s; "
+               "[outer == fresh, fresh in << outer >>, outer in << fresh >>, length(<< outer, fresh >>), << outer >> == << fresh >>, "
+               "<<< identity(outer) => 7 >>>[fresh], fresh in <<< identity(outer) => 7 >>>, string(outer) == string(fresh)]") % (inner0, outer0, touch, mut, outer1)
+        env = ckl.functions.Environment()
+        o = observe(lambda: it.interpret(src, "c06", env), 600000)
+        ctx.count("mutation_sequences")
+        ctx.case(("mutseq", src))
+        want = "[TRUE, TRUE, TRUE, 1, TRUE, 7, TRUE, TRUE]"
+        if o.kind != "value":
+            ctx.violation("C06:mutation-sequence:error:" + ik, "%s -> %s %s" % (src, o.kind, core.safe_str(o.exc, 100)), {"src": src})
+        elif str(o.value) != want:
+            ctx.violation("C06:mutation-sequence:%s" % ik, "%s -> %s, expected %s" % (src, core.safe_str(o.value), want), {"src": src})
+    ctx.sample({"mutation_sequence": src})
+
+
 def run_shard(spec, ctx):
     valuelaws.MONITOR.install()
+    if spec["kind"] == "mutseq":
+        run_mutation_sequences(spec, ctx)
+        valuelaws.MONITOR.drain(ctx, "C06")
+        return
     if spec["kind"] == "api":
         run_api(spec, ctx)
     elif spec["kind"] == "containers":
@@ -340,7 +383,7 @@ def finalize(merged, tier):
     c = merged["counters"]
     reasons = []
     for k in ("eq_checks", "hash_checks", "api_pairs", "api_triples", "set_builds", "map_builds",
-              "program_evaluations"):
+              "program_evaluations", "mutation_sequences"):
         if c.get(k, 0) == 0:
             reasons.append("monitor counter %s is zero" % k)
     return {}, reasons
